@@ -9,7 +9,7 @@ from .common import write_cfg, tla_lit
 
 def constants_for(cfg, focus, w=32):
     return {"Period": cfg.period, "Timespan": cfg.timespan, "W": w, "MaxFuture": cfg.max_future,
-            "InitialSubsidy": cfg.initial_subsidy, "HalvingInterval": cfg.halving, "MaxMoney": cfg.max_money, "RulesOff": set(),
+            "InitialSubsidy": cfg.initial_subsidy, "HalvingInterval": cfg.halving, "MaxMoney": min(cfg.max_money, 2 ** 31 - 1), "RulesOff": set(),
             "Horizon": ("<-", "HorizonT"), "Known": ("<-", "KnownT"), "Focus": set(focus)}
 
 
